@@ -175,3 +175,87 @@ def fault_probe(p):
         return dict(status="not-reproduced", detail="rejected with %s: %s" % (type(e).__name__, str(e)[:150]))
     return dict(status="confirmed", failing_input=dict(fault=p["fault"], method=p["method"]),
                 observed="declared, transcribed and solved without any exception", expected="an exception at declaration or at the latest in solve()")
+
+
+def der_probe(p):
+    """C16: Stage.der against an independent AD evaluation of the chain rule on the real code"""
+    import casadi as ca
+    from rockit import Ocp
+    from contracts.backend import ufun
+    nx, td = p.get("nx", 2), p.get("td", True)
+    ocp = Ocp(T=1.0)
+    xs = [ocp.state() for _ in range(nx)]
+    u = ocp.control(); par = ocp.parameter(); v = ocp.variable()
+    x = ca.vertcat(*xs)
+    f = ufun("f", nx, [x, u, par, v] + ([ocp.t] if td else []))
+    for i, xi in enumerate(xs):
+        ocp.set_der(xi, f[i])
+    exprs = dict(e=ufun("e", 2, [x, par]), g=ufun("g", 1, [x, ocp.t, par]), h=xs[0] * xs[-1] + ocp.t * xs[0] + par * ocp.t * ocp.t)
+    for i in range(nx):
+        exprs["x%d" % i] = xs[i]
+    rs = np.random.RandomState(p.get("seed", 0))
+    bad = []
+    for name, e in exprs.items():
+        try:
+            d = ocp.der(e)
+        except Exception as ex:
+            bad.append(dict(expression=name, observed="raises %s" % str(ex)[:100]))
+            continue
+        want = ca.mtimes(ca.jacobian(e, x), f) + ca.jacobian(e, ocp.t)
+        F = ca.Function("F", [x, u, par, v, ocp.t], [d, want])
+        for _ in range(3):
+            args = [rs.uniform(-1, 1, size=a.numel()) for a in (x, u, par, v, ocp.t)]
+            a, b = [np.array(r).reshape(-1) for r in F(*args)]
+            if not np.allclose(a, b, rtol=1e-9, atol=1e-9):
+                bad.append(dict(expression=name, point=[q.tolist() for q in args], observed=a.tolist(), expected=b.tolist()))
+                break
+    if bad:
+        return dict(status="confirmed", failing_input=dict(nx=nx, time_varying_ode=td), problems=bad)
+    return dict(status="not-reproduced", detail="der() equals the chain rule for %d expressions" % len(exprs))
+
+
+def clone_probe(p):
+    """C12: two clones of a template against two stages declared directly with the same content, on the real code"""
+    import casadi as ca
+    from rockit import Ocp, FreeTime
+    from contracts.spec import Spec, E, Con
+    method, ok, ode_t = p["method"], p["objective"], p.get("ode_t", False)
+    obj = {"mayer": [("at_tf", E("Mf", 1, ("x", "T", "t0")))], "sum": [("sum", E("S", 1, ("x", "u")))],
+           "integral": [("integral", E("L", 1, ("x", "u")))], "integral-t": [("integral", E("Lt", 1, ("x", "u", "t")))],
+           "quad-state": [("integral", E("L", 1, ("x", "u")))]}[ok]
+    def spec(T, t0):
+        return Spec(method=method, N=2, M=1, degree=2, T=T, t0=t0, states=[2], params={"": [1]},
+                    ode=E("f", None, ("x", "u", "t", "p") if ode_t else ("x", "u", "p")),
+                    constraints=[Con(E("c1", 1, ("x", "u", "t", "T", "t0")), "le", 1.0), Con(E("b0", 2, (("at", "t0", "x"),)), "eq", 0.0),
+                                 Con(E("bf", 1, (("at", "tf", "x"), "p")), "le", 3.0)], objective=obj)
+    def user_quad(sp):
+        if ok == "quad-state":
+            st = sp.ocp
+            q = st.state(quad=True)
+            st.set_der(q, sp.sym["x"][0][0] ** 2)
+            st.add_objective(st.at_tf(q))
+    try:
+        with contextlib.redirect_stdout(io.StringIO()):
+            tm = spec(("fixed", 1.0), ("fixed", 0.0)); tm.build(template=True); user_quad(tm)
+            A = Ocp()
+            A.stage(tm.ocp, t0=0.0, T=2.0); A.stage(tm.ocp, t0=2.0, T=FreeTime(1.5))
+            A.solver("ipopt"); A._transcribed
+            B = Ocp()
+            s1 = spec(("fixed", 2.0), ("fixed", 0.0)); s1.build(parent=B); user_quad(s1)
+            s2 = spec(("free", 1.5), ("fixed", 2.0)); s2.build(parent=B); user_quad(s2)
+            B.solver("ipopt"); B._transcribed
+    except Exception as e:
+        return dict(status="confirmed", failing_input=dict(p), observed="%s: %s" % (type(e).__name__, str(e)[:300]), expected="template and clones transcribe")
+    oa, ob = A._augmented._method.opti, B._augmented._method.opti
+    if oa.x.shape != ob.x.shape or oa.g.shape != ob.g.shape:
+        return dict(status="confirmed", failing_input=dict(p), observed="sizes x %s g %s vs direct x %s g %s" % (oa.x.shape, oa.g.shape, ob.x.shape, ob.g.shape))
+    rs = np.random.RandomState(0)
+    Fa = ca.Function("Fa", [oa.x, oa.p], [oa.f, oa.g, oa.lbg, oa.ubg]); Fb = ca.Function("Fb", [ob.x, ob.p], [ob.f, ob.g, ob.lbg, ob.ubg])
+    pb = np.array(ob.debug.value(ob.p, ob.value_parameters())).reshape(-1) if ob.p.numel() else np.zeros(0)
+    for _ in range(2):
+        xv = rs.uniform(0.3, 1.4, size=oa.x.numel())
+        ra = [np.array(v).reshape(-1) for v in Fa(xv, pb)]; rb = [np.array(v).reshape(-1) for v in Fb(xv, pb)]
+        for nm, u, v in zip(("objective", "g", "lbg", "ubg"), ra, rb):
+            if not np.allclose(u, v, rtol=1e-9, atol=1e-9, equal_nan=True):
+                return dict(status="confirmed", failing_input=dict(p, x=xv.tolist()), observed="%s of the cloned OCP differs from the directly declared one" % nm)
+    return dict(status="not-reproduced", detail="clones equal directly declared stages")
